@@ -138,6 +138,30 @@ ZeroFeeGenesis ==
      !.classfee  = SomeCoin("uregen", 0),
      !.basketfee = SomeCoin("uregen", 0)]
 
+\* two projects; the batch whose denom sorts first (C01-001-...) is the YOUNGER one;
+\* the basket holds credits of both
+Basket3Genesis ==
+  [BasketGenesis EXCEPT
+     !.projects = @ \cup {[key |-> 2, id |-> "C01-002", admin |-> "a1", ck |-> 1, jur |-> "US",
+                           meta |-> "m0", ref |-> ""]},
+     !.pseq     = {[ck |-> 1, next |-> 3]},
+     !.batches  = {[key |-> 1, issuer |-> "a1", pk |-> 1,
+                    denom |-> BatchDenomOf("C01-001", 7, 8, 1), meta |-> "m0",
+                    start |-> 7, end |-> 8, issued |-> 6, open |-> FALSE, ck |-> 0],
+                   [key |-> 2, issuer |-> "a1", pk |-> 2,
+                    denom |-> BatchDenomOf("C01-002", 3, 8, 1), meta |-> "m0",
+                    start |-> 3, end |-> 8, issued |-> 6, open |-> FALSE, ck |-> 0]},
+     !.bseq     = {[pk |-> 1, next |-> 2], [pk |-> 2, next |-> 2]},
+     !.bal      = {[a |-> "a1", bk |-> 1, t |-> 1, r |-> 0, e |-> 0],
+                   [a |-> "a1", bk |-> 2, t |-> 1, r |-> 0, e |-> 0]},
+     !.supply   = {[bk |-> 1, t |-> 3, r |-> 0, c |-> 0], [bk |-> 2, t |-> 2, r |-> 0, c |-> 0]},
+     !.bbal     = {[bid |-> 1, denom |-> BatchDenomOf("C01-001", 7, 8, 1), amt |-> 2, start |-> 7],
+                   [bid |-> 1, denom |-> BatchDenomOf("C01-002", 3, 8, 1), amt |-> 1, start |-> 3]},
+     !.coins    = @ \cup {[a |-> "a1", d |-> BasketDenomOf("C", "NCT"), n |-> 2],
+                           [a |-> "a2", d |-> BasketDenomOf("C", "NCT"), n |-> 1]},
+     !.csupply  = @ \cup {[d |-> BasketDenomOf("C", "NCT"), n |-> 3]},
+     !.seq      = [@ EXCEPT !.project = 2]]
+
 GenesisState ==
   CASE Genesis = "default" -> DefaultGenesis
     [] Genesis = "class"   -> ClassGenesis
@@ -145,6 +169,7 @@ GenesisState ==
     [] Genesis = "market"  -> MarketGenesis
     [] Genesis = "basket"  -> BasketGenesis
     [] Genesis = "basket2" -> Basket2Genesis
+    [] Genesis = "basket3" -> Basket3Genesis
     [] Genesis = "bridge"  -> BridgeGenesis
     [] Genesis = "fee"     -> FeeGenesis
     [] Genesis = "zerofee" -> ZeroFeeGenesis
